@@ -11,7 +11,7 @@ Context {T} {N: Num T}.
 Local Infix "+" := nadd. Local Infix "-" := nsub. Local Infix "*" := nmul.
 Local Infix "<=?" := nleb. Local Infix "<?" := nltb.
 
-Definition point := (T*T)%type.
+Local Notation point := (T*T)%type.
 (* sorted(points, key=lambda a: a[0]) — stable insertion sort *)
 Fixpoint insert (p:point) (l:list point) : list point := match l with
   | [] => [p] | q::r => if fst q <? fst p then q :: insert p r else p::q::r end.
